@@ -246,6 +246,45 @@ func v3ModGrid(ver int) []ScoreCase {
 	return out
 }
 
+// v3ModPairs: every base combination (2,592) x every pair of Modified metrics x every pair of their
+// values incl. X (so every single Modified metric too), requirements and temporal metrics X.
+// Returned as a compact index space decoded on demand.
+type v3PairSpace struct {
+	ver   int
+	pairs [][4]int // m1, v1, m2, v2 (indices into the overridable list / value lists)
+}
+
+func newV3PairSpace(ver int) *v3PairSpace {
+	v := spec.Versions[ver]
+	ov := spec.OverridableOrder(v)
+	mod := spec.ModifiedOf(v)
+	ps := &v3PairSpace{ver: ver}
+	for i1 := 0; i1 < len(ov); i1++ {
+		for i2 := i1 + 1; i2 < len(ov); i2++ {
+			n1, n2 := len(v.Metric(mod[ov[i1]]).Vals), len(v.Metric(mod[ov[i2]]).Vals)
+			for a := 0; a < n1; a++ {
+				for b := 0; b < n2; b++ {
+					ps.pairs = append(ps.pairs, [4]int{i1, a, i2, b})
+				}
+			}
+		}
+	}
+	return ps
+}
+
+func (ps *v3PairSpace) size() int { return 2592 * len(ps.pairs) }
+
+func (ps *v3PairSpace) decode(idx int) ScoreCase {
+	v := spec.Versions[ps.ver]
+	ov := spec.OverridableOrder(v)
+	mod := spec.ModifiedOf(v)
+	c := v3ClassDecode(ps.ver, (idx/len(ps.pairs))*6400) // base part, everything else X
+	pr := ps.pairs[idx%len(ps.pairs)]
+	m1, m2 := v.Metric(mod[ov[pr[0]]]), v.Metric(mod[ov[pr[2]]])
+	c.A[m1.Abv], c.A[m2.Abv] = m1.Vals[pr[1]], m2.Vals[pr[3]]
+	return c
+}
+
 func TestC03(t *testing.T) {
 	h := start(t, "C03", "complete enumeration, for v3.0 and v3.1 each, of the 16,588,800 effective classes (2,592 base combinations x CR/IR/AR incl. X x E/RL/RC incl. X, Modified metrics X) checking BaseScore, TemporalScore, EnvironmentalScore, Impact and Exploitability; plus a grid (each Modified metric x each value x each base value x 12 backgrounds) and rapid lifts into the raw space with Modified metrics defined; non-trivial = environmental score > 0; enumerated classes are distinct by construction, lifts by assignment")
 	h.R.Assume("oracle: FIRST v3.0/v3.1 equations in math/big.Rat, Roundup as the real-number ceiling to one decimal (spec/score3.go); spec_test.go shows it coincides with the Appendix A integer algorithm on the whole domain")
@@ -258,9 +297,13 @@ func TestC03(t *testing.T) {
 		c03Enumerate(h, 2)
 		for _, ver := range []int{1, 2} {
 			grid := v3ModGrid(ver)
-			Enum(h, "v3-assignment", len(grid), func(i int) ScoreCase { return grid[i] }, func(i int) bool { return checkV3Scores(grid[i]) == nil }, checkV3Scores)
+			Enum(h, "v3-assignment", len(grid), func(i int) ScoreCase { return grid[i] }, nil, checkV3Scores)
 			h.R.AddExact(int64(len(grid)), int64(len(grid)))
 			h.R.Count("v"+spec.Versions[ver].Name+" Modified-metric grid cases", int64(len(grid)))
+			ps := newV3PairSpace(ver)
+			Enum(h, "v3-assignment", ps.size(), ps.decode, nil, checkV3Scores)
+			h.R.AddExact(int64(ps.size()), int64(ps.size()))
+			h.R.Count("v"+spec.Versions[ver].Name+" exhaustive: every base combination x every pair of Modified metric values", int64(ps.size()))
 		}
 	}
 	n := env.Scale(50000, 100000)
@@ -377,6 +420,43 @@ func v4AllScores() []int16 {
 	return out
 }
 
+// v4 base combinations (104,976) x every single Modified metric value (E, CR, IR, AR = X).
+type v4SingleSpace struct{ singles [][2]string }
+
+func newV4SingleSpace() *v4SingleSpace {
+	sp := &v4SingleSpace{singles: [][2]string{{"", ""}}}
+	for _, b := range spec.OverridableOrder(spec.V4) {
+		m := spec.V4.Metric(spec.ModifiedOf(spec.V4)[b])
+		for _, val := range m.Vals[1:] {
+			sp.singles = append(sp.singles, [2]string{m.Abv, val})
+		}
+	}
+	return sp
+}
+
+const v4BaseCombos = 4 * 2 * 2 * 3 * 3 * 729
+
+func (sp *v4SingleSpace) size() int { return v4BaseCombos * len(sp.singles) }
+
+func (sp *v4SingleSpace) decode(idx int) ScoreCase {
+	a := spec.Assignment{}
+	for _, m := range spec.V4.Metrics {
+		if !m.Mandatory {
+			a[m.Abv] = "X"
+		}
+	}
+	b := idx / len(sp.singles)
+	for i := 10; i >= 0; i-- {
+		m := spec.V4.Metrics[i]
+		a[m.Abv] = m.Vals[b%len(m.Vals)]
+		b /= len(m.Vals)
+	}
+	if sg := sp.singles[idx%len(sp.singles)]; sg[0] != "" {
+		a[sg[0]] = sg[1]
+	}
+	return ScoreCase{Ver: 3, A: a}
+}
+
 func TestC04(t *testing.T) {
 	h := start(t, "C04", "complete enumeration of the 15,116,544 effective v4.0 classes (AV AC AT PR UI VC VI VA SC SI{S,H,L,N} SA{S,H,L,N} E{A,P,U} CR IR AR{H,M,L}; SI/SA=S carried by MSI/MSA:S) covering all 270 MacroVectors, Score compared exactly with the oracle; plus rapid lifts into the raw space (Modified overrides, explicit X, supplemental metrics, all-None corner profiles); non-trivial = not all effective impacts None; enumerated classes are distinct by construction, lifts by assignment")
 	h.R.Assume("oracle: specification section 8.2 over metric letters, exact fraction of tenths with denominator 840*n, rounded half-up (spec/score4.go); frozen 270-entry lookup table (spec/v4lookup.go, SHA-256 pinned in spec_test.go)")
@@ -449,6 +529,12 @@ func TestC04(t *testing.T) {
 			}
 			h.fail("v4-assignment", c, err)
 		}
+	}
+	if env.Shards <= 1 {
+		sp := newV4SingleSpace()
+		Enum(h, "v4-assignment", sp.size(), sp.decode, nil, checkV4Score)
+		h.R.AddExact(int64(sp.size()), int64(sp.size()))
+		h.R.Count("exhaustive: every base combination (104,976) x every single Modified metric value (and none)", int64(sp.size()))
 	}
 	n := env.Scale(50000, 100000)
 	if env.Shards > 1 {
